@@ -895,6 +895,10 @@ func (tx *Tx) getHintIdxDataItemsWrapper(records Records, limitNum int, es Entri
 
 // FindTxIDOnDisk returns if txId on disk at given fid and txID.
 func (tx *Tx) FindTxIDOnDisk(fID, txID uint64) (ok bool, err error) {
+	if err := tx.checkTxIsClosed(); err != nil {
+		return false, err
+	}
+
 	var i uint16
 
 	filepath := tx.db.getBPTRootTxIDPath(int64(fID))
@@ -947,6 +951,10 @@ func (tx *Tx) FindTxIDOnDisk(fID, txID uint64) (ok bool, err error) {
 
 // FindOnDisk returns entry on disk at given fID, rootOff and key.
 func (tx *Tx) FindOnDisk(fID uint64, rootOff uint64, key, newKey []byte) (entry *Entry, err error) {
+	if err := tx.checkTxIsClosed(); err != nil {
+		return nil, err
+	}
+
 	var (
 		bnLeaf *BinaryNode
 		i      uint16
@@ -987,6 +995,10 @@ func (tx *Tx) FindOnDisk(fID uint64, rootOff uint64, key, newKey []byte) (entry 
 
 // FindLeafOnDisk returns binary leaf node on disk at given fId, rootOff and key.
 func (tx *Tx) FindLeafOnDisk(fID int64, rootOff int64, key, newKey []byte) (bn *BinaryNode, err error) {
+	if err := tx.checkTxIsClosed(); err != nil {
+		return nil, err
+	}
+
 	var i uint16
 	var curr *BinaryNode
 
